@@ -257,6 +257,71 @@ fn seq_lines(alphabet: &[&str], seq: &[u8]) -> Vec<String> {
     seq.iter().map(|&i| alphabet[i as usize].to_string()).collect()
 }
 
+/// CLI conformance slice: for every sequence of ≤2 lines the batched file is also run through the
+/// real binary and must give the same diagnostics, status and `list` output as the library.
+fn conformance_phase(prop: &'static str, alphabet: &'static [&'static str], cfg: &Cfg, sink: &Arc<Sink>, render: fn(&[String]) -> Vec<(String, String)>) -> Phase {
+    let cfg2 = cfg.clone();
+    engine::explore(
+        "CLI conformance slice",
+        &format!("all sequences of ≤2 lines over the {}-line alphabet, library vs real CLI (scan + list)", alphabet.len()),
+        Sequences {
+            alphabet: alphabet.len() as u8,
+            max_len: 2,
+            check: move |seq: &[u8], sink: &Sink| {
+                let lines = seq_lines(alphabet, seq);
+                for (name, text) in render(&lines) {
+                    let files = vec![(name, text)];
+                    sink.exec();
+                    let lib = librun::run(&Input { files: files.clone(), ..Default::default() });
+                    crate::props::conform::cli_agrees(&cfg2, &files, &lib, &[], prop, &json!({"lines": lines, "conformance": true}), sink);
+                }
+            },
+        },
+        sink,
+        cfg.threads,
+        false,
+    )
+}
+
+fn render_c06(lines: &[String]) -> Vec<(String, String)> {
+    let configs = c06_configs();
+    let mut out = Vec::new();
+    for numeric in [false, true] {
+        let mut batch = Batch::new();
+        for c in configs.iter().filter(|c| c.numeric == numeric) {
+            let ks = keys(lines, c.pattern.as_ref());
+            if numeric && ks.iter().any(|k| numeric_value(&k.text).is_none()) {
+                continue;
+            }
+            batch.block(&c.attrs, lines);
+        }
+        if !batch.blocks.is_empty() {
+            out.push(("x.py".to_string(), batch.text().to_string()));
+        }
+    }
+    out
+}
+
+fn render_c07(lines: &[String]) -> Vec<(String, String)> {
+    let mut batch = Batch::new();
+    for pat in C07_PATTERNS {
+        let attrs = match pat {
+            None => "keep-unique".to_string(),
+            Some(p) => format!("keep-unique={}", quote(p)),
+        };
+        batch.block(&attrs, lines);
+    }
+    vec![("x.py".to_string(), batch.text().to_string())]
+}
+
+fn render_c08(lines: &[String]) -> Vec<(String, String)> {
+    let mut batch = Batch::new();
+    for p in C08_PATTERNS {
+        batch.block(&format!("line-pattern={}", quote(p)), lines);
+    }
+    vec![("x.py".to_string(), batch.text().to_string())]
+}
+
 fn seq_phase<F>(name: &str, alphabet: &'static [&'static str], max_len: usize, cfg: &Cfg, sink: &Arc<Sink>, check: F) -> Phase
 where
     F: Fn(&[String], &Sink) + Send + Sync + 'static,
@@ -299,11 +364,20 @@ pub fn run_c06(cfg: &Cfg, sink: &Arc<Sink>) -> Report {
     report.phase(seq_phase("extended-alphabet (unicode, signed zero, exponent, several matches per line)", C06_EXT, cfg.tier.pick(3, 4), cfg, sink, move |lines, sink| c06_check(lines, &c, sink)));
     let c = Arc::clone(&configs);
     report.phase(seq_phase("long blocks over a 4-line alphabet", C06_LONG, cfg.tier.pick(7, 9), cfg, sink, move |lines, sink| c06_check(lines, &c, sink)));
+    report.phase(conformance_phase("C06", C06_BASE, cfg, sink, render_c06));
     report
 }
 
-pub fn replay_c06(_cfg: &Cfg, input: &Value, sink: &Arc<Sink>) {
+pub fn replay_c06(cfg: &Cfg, input: &Value, sink: &Arc<Sink>) {
     let lines: Vec<String> = serde_json::from_value(input["lines"].clone()).unwrap_or_default();
+    if input.get("conformance").is_some() {
+        for (name, text) in render_c06(&lines) {
+            let files = vec![(name, text)];
+            let lib = librun::run(&Input { files: files.clone(), ..Default::default() });
+            crate::props::conform::cli_agrees(cfg, &files, &lib, &[], "C06", input, sink);
+        }
+        return;
+    }
     c06_check(&lines, &c06_configs(), sink);
 }
 
@@ -402,11 +476,20 @@ pub fn run_c07(cfg: &Cfg, sink: &Arc<Sink>) -> Report {
     }
     report.phase(seq_phase("base-alphabet", C07_BASE, cfg.tier.pick(4, 5), cfg, sink, c07_check));
     report.phase(seq_phase("long blocks over a 4-line alphabet", C07_LONG, cfg.tier.pick(7, 9), cfg, sink, c07_check));
+    report.phase(conformance_phase("C07", C07_BASE, cfg, sink, render_c07));
     report
 }
 
-pub fn replay_c07(_cfg: &Cfg, input: &Value, sink: &Arc<Sink>) {
+pub fn replay_c07(cfg: &Cfg, input: &Value, sink: &Arc<Sink>) {
     let lines: Vec<String> = serde_json::from_value(input["lines"].clone()).unwrap_or_default();
+    if input.get("conformance").is_some() {
+        for (name, text) in render_c07(&lines) {
+            let files = vec![(name, text)];
+            let lib = librun::run(&Input { files: files.clone(), ..Default::default() });
+            crate::props::conform::cli_agrees(cfg, &files, &lib, &[], "C07", input, sink);
+        }
+        return;
+    }
     c07_check(&lines, sink);
 }
 
@@ -477,11 +560,20 @@ pub fn run_c08(cfg: &Cfg, sink: &Arc<Sink>) -> Report {
     report.assume("regex crate semantics are trusted for whether a pattern matches a given string");
     report.phase(seq_phase("base-alphabet", C08_BASE, cfg.tier.pick(4, 5), cfg, sink, c08_check));
     report.phase(seq_phase("long blocks over a 4-line alphabet", C08_LONG, cfg.tier.pick(7, 9), cfg, sink, c08_check));
+    report.phase(conformance_phase("C08", C08_BASE, cfg, sink, render_c08));
     report
 }
 
-pub fn replay_c08(_cfg: &Cfg, input: &Value, sink: &Arc<Sink>) {
+pub fn replay_c08(cfg: &Cfg, input: &Value, sink: &Arc<Sink>) {
     let lines: Vec<String> = serde_json::from_value(input["lines"].clone()).unwrap_or_default();
+    if input.get("conformance").is_some() {
+        for (name, text) in render_c08(&lines) {
+            let files = vec![(name, text)];
+            let lib = librun::run(&Input { files: files.clone(), ..Default::default() });
+            crate::props::conform::cli_agrees(cfg, &files, &lib, &[], "C08", input, sink);
+        }
+        return;
+    }
     c08_check(&lines, sink);
 }
 
